@@ -348,17 +348,78 @@ def judgeLine (st : St) (l : String) : Except Verdict St := do
       | _ => .error (.badop l)
     else if kind == "sleep" then return st
     else .error (.badop l)
+  | ["ubs", tok, k, hex] =>
+    -- unbuffered batch with a snapshot request after k points
+    let some (b, pts, _) := parseInBatch tok | .error (.badop l)
+    let some k := k.toNat? | .error (.badop l)
+    let some bytes := parseHex hex | .error (.badop l)
+    match obs with
+    | [g, d, _, h] =>
+      if g != esc b.group then .error (.mismatch s!"batch ToGroupID: model {esc b.group} observed {g}")
+      if d != renderDims b.dims then .error (.mismatch s!"batch dimensions: model {renderDims b.dims} observed {d}")
+      let some got := parseHex h | .error (.specfail "snapshot-bytes" s!"Snapshot() inside a batch failed: {h}")
+      if !snapshotIdentity bytes got then
+        .error (.specfail "snapshot-bytes" s!"inside a batch: the UDF supplied {bytes.length} bytes, Snapshot() returned {got.length} bytes (or different ones)")
+    | _ => .error (.specfail "session-clean" s!"server aborted while a batch was sent: {obs}")
+    let k := min k pts.length
+    let st := addBrs st ["batch-unbuffered", "snapshot-inside-batch", if pts.isEmpty then "batch-empty" else "batch-n"]
+    let st := { st with sent := st.sent.push (.batch b pts), nontrivial := st.nontrivial || st.chunked }
+    let st ← runModel st ([.begin b] ++ (pts.take k).map .bp)
+    let st := { st with sess := { st.sess with peer := { st.sess.peer with snap := bytes } } }
+    let (st, outs) ← ctlRequest st .snapshot
+    if outs != [.snapshot bytes] then .error (.mismatch "snapshot inside a batch: model differs")
+    runModel st ((pts.drop k).map .bp ++ [.endB])
   | ["join"] => return st
   | ["out"] => judgeOut st obs l
   | _ => .error (.badop l)
 
-def judge (_id : String) (lines : Array String) : Verdict := Id.run do
-  let mut st : St := {}
-  for l in lines do
-    match judgeLine st l with
-    | .ok st' => st := st'
-    | .error v => return v
-  return .ok st.nontrivial st.branches.reverse
+def runLines (st : St) (lines : List String) : Except Verdict St :=
+  lines.foldlM judgeLine st
+
+/-! ### recorded deviation `invalid-utf8` (findings/C19.txt)
+
+`Dev(input)`: some data message of the session carries a string (name, database, retention policy, dimension,
+tag key or value, field key or string value) that is not valid UTF-8. Deviated output: `proto.Marshal` rejects
+the request, `writeData` returns the error, the server aborts; what was received is the echo of a prefix of the
+messages sent BEFORE the offending one. (Lean's `String` cannot hold such an input, so the model is not run
+beyond it; everything before it is judged as usual.) -/
+
+def invalidUtf8 (tok : String) : Bool := (unescRaw tok).isSome && (unesc tok).isNone
+
+def isBadDataLine (l : String) : Bool :=
+  match (splitObs (tokens l)).1 with
+  | [k, tok] => (k == "pt" || k == "bb" || k == "ub") && invalidUtf8 tok
+  | _ => false
+
+def judgeDeviation (st : St) (rest : List String) : Verdict :=
+  match rest.find? (fun l => (tokens l).head? == some "out") with
+  | none => .badop "invalid-utf8 case without an out line"
+  | some l =>
+    match (splitObs (tokens l)).2 with
+    | status :: _ :: _ :: toks =>
+      let toks := if toks == ["!"] then [] else toks
+      match toks.mapM parseOut with
+      | none => .badop l
+      | some recvd =>
+        let sent := st.sent.toList
+        if status == "ok" then
+          .specfail "session-clean" "a message with a string that is not valid UTF-8 was sent and the session reports ok (deviation invalid-utf8 no longer matches: delete it)"
+        else if recvd.length ≤ sent.length && echoIdentity (sent.take recvd.length) (recvd.map (·.1)) then
+          .known "invalid-utf8" s!"server aborted; {recvd.length} of the {sent.length} messages sent before the offending one came back"
+        else .specfail "echo-identity" "invalid UTF-8 input: what came back is not the echo of a prefix of what was sent before it"
+    | _ => .badop l
+
+def judge (_id : String) (lines : Array String) : Verdict :=
+  let ls := lines.toList
+  match ls.findIdx? isBadDataLine with
+  | some i =>
+    match runLines {} (ls.take i) with
+    | .error v => v
+    | .ok st => judgeDeviation st (ls.drop i)
+  | none =>
+    match runLines {} ls with
+    | .ok st => .ok st.nontrivial st.branches.reverse
+    | .error v => v
 
 end Kap.C19.Drv
 
